@@ -176,5 +176,32 @@ func TestVerifC05ipfilter(t *testing.T) {
 			},
 			Replay: func(ch []int) (*mc.Failure, []string) { res = mc.NewResult("C05"); return mc.ReplayOne(run, ch) }}
 	}
-	mc.RunJobsAll("C05", []mc.Job{mk("specs", runSpecs), mk("prefix-sweep", runSweep)})
+	// nested entries sharing one base address, in EVERY order (overlapping entries; a list is a set, its order
+	// must not matter): every ordered list of 1-3 of them, as allow list or as block list
+	fams := [][]string{{"10.0.0.0", "10.0.0.0/24", "10.0.0.0/16", "10.0.0.0/8"}, {"2001:db8::", "2001:db8::/64", "2001:db8::/32", "2001:db8::/127"}}
+	nestedClients := []string{"10.0.0.0", "10.0.0.1", "10.0.1.1", "10.1.1.1", "11.0.0.0", "2001:db8::", "2001:db8::1", "2001:db8::2", "2001:db8:0:1::1", "2001:db8:1::1", "2001:db9::1"}
+	runNested := func(c *mc.Ctx) {
+		fam := fams[c.Choose(2, "family")]
+		n := 1 + c.Choose(3, "entries")
+		var list []string
+		used := map[int]bool{}
+		for i := 0; i < n; i++ {
+			k := c.Choose(len(fam), fmt.Sprintf("entry%d", i))
+			if used[k] {
+				c.Outcome("repeated-entry")
+				return
+			}
+			used[k] = true
+			list = append(list, fam[k])
+		}
+		asBlock := c.Choose(2, "as-block") == 1
+		bbd := c.Choose(2, "blockByDefault") == 1
+		c.Note("entries %v asBlock=%v bbd=%v", list, asBlock, bbd)
+		if asBlock {
+			c05Check(c, res, nil, list, bbd, nestedClients)
+		} else {
+			c05Check(c, res, list, nil, bbd, nestedClients)
+		}
+	}
+	mc.RunJobsAll("C05", []mc.Job{mk("specs", runSpecs), mk("prefix-sweep", runSweep), mk("nested-entries-in-every-order", runNested)})
 }
